@@ -116,14 +116,69 @@ theorem labelChar_clean {c : Char} (h : (pnChars c || c == '.') = true) : clean 
   clean_of (p := fun c => pnChars c || c == '.') (by decide) h
 theorem varTail_clean {c : Char} (h : varTail c = true) : clean c := clean_of (by decide) h
 
+theorem hexDigit_clean (lower : Bool) : ∀ d : Fin 16, hexDigit lower d ≠ '\t' ∧ hexDigit lower d ≠ '\n' := by
+  cases lower <;> decide
+
+theorem hex4_clean (lower : Bool) (n : Nat) : ∀ x ∈ hex4 lower n, clean x := by
+  intro x hx
+  simp only [hex4, List.mem_cons, List.not_mem_nil, or_false] at hx
+  rcases hx with rfl | rfl | rfl | rfl
+  · exact hexDigit_clean lower ⟨n / 4096 % 16, Nat.mod_lt _ (by decide)⟩
+  · exact hexDigit_clean lower ⟨n / 256 % 16, Nat.mod_lt _ (by decide)⟩
+  · exact hexDigit_clean lower ⟨n / 16 % 16, Nat.mod_lt _ (by decide)⟩
+  · exact hexDigit_clean lower ⟨n % 16, Nat.mod_lt _ (by decide)⟩
+
+theorem uchar_clean (lower : Bool) (c : Char) : ∀ x ∈ uchar lower c, clean x := by
+  intro x hx
+  unfold uchar at hx
+  split at hx
+  · simp only [List.mem_cons] at hx
+    rcases hx with rfl | rfl | hx
+    · constructor <;> decide
+    · constructor <;> decide
+    · exact hex4_clean lower _ x hx
+  · simp only [List.mem_cons, List.mem_append] at hx
+    rcases hx with rfl | rfl | hx | hx
+    · constructor <;> decide
+    · constructor <;> decide
+    · exact hex4_clean lower _ x hx
+    · exact hex4_clean lower _ x hx
+
 theorem escChar_clean {q : Char} (hq : q = '"' ∨ q = '\'') (k : Nat) (c : Char) : ∀ x ∈ escChar q k c, clean x := by
   have hqc : clean q := by rcases hq with rfl | rfl <;> (constructor <;> decide)
+  have bs : clean '\\' := by constructor <;> decide
   unfold escChar
   intro x hx
-  split_ifs at hx with h1 h2 h3 h4 h5 h6 h7 h8 h9
-  all_goals simp only [List.mem_cons, List.not_mem_nil, or_false] at hx
-  all_goals (try (rcases hx with rfl | rfl <;> first | exact hqc | (constructor <;> decide)))
-  all_goals (subst hx; exact ⟨h3, h4⟩)
+  split_ifs at hx with h1 h2 h3 h4 h5 h6 h7 h8 h9 h10 h11 h12
+  · simp only [List.mem_cons, List.not_mem_nil, or_false] at hx
+    rcases hx with rfl | rfl
+    · exact bs
+    · exact hqc
+  · simp only [List.mem_cons, List.not_mem_nil, or_false] at hx
+    rcases hx with rfl | rfl <;> exact bs
+  · simp only [List.mem_cons, List.not_mem_nil, or_false] at hx
+    rcases hx with rfl | rfl <;> (constructor <;> decide)
+  · simp only [List.mem_cons, List.not_mem_nil, or_false] at hx
+    rcases hx with rfl | rfl <;> (constructor <;> decide)
+  · simp only [List.mem_cons, List.not_mem_nil, or_false] at hx
+    rcases hx with rfl | rfl <;> (constructor <;> decide)
+  · exact uchar_clean _ c x hx
+  · simp only [List.mem_cons, List.not_mem_nil, or_false] at hx
+    subst hx; exact ⟨h3, h4⟩
+  · simp only [List.mem_cons, List.not_mem_nil, or_false] at hx
+    rcases hx with rfl | rfl <;> (constructor <;> decide)
+  · simp only [List.mem_cons, List.not_mem_nil, or_false] at hx
+    subst hx; exact ⟨h3, h4⟩
+  · simp only [List.mem_cons, List.not_mem_nil, or_false] at hx
+    rcases hx with rfl | rfl <;> (constructor <;> decide)
+  · simp only [List.mem_cons, List.not_mem_nil, or_false] at hx
+    subst hx; exact ⟨h3, h4⟩
+  · simp only [List.mem_cons, List.not_mem_nil, or_false] at hx
+    rcases hx with rfl | rfl
+    · exact bs
+    · exact ⟨h3, h4⟩
+  · simp only [List.mem_cons, List.not_mem_nil, or_false] at hx
+    subst hx; exact ⟨h3, h4⟩
 
 theorem escStr_clean {q : Char} (hq : q = '"' ∨ q = '\'') (ks : List Nat) (s : Str) :
     ∀ x ∈ escStr q ks s, clean x := by
